@@ -165,8 +165,12 @@ def plainJsonDec : DecCfg := { parseLinks := false, parseBytes := false }
 
 abbrev JR (α : Type) := Except JErr α
 
+/-- Go's base64 decoders ignore carriage returns and line feeds in their input -/
+def stripNL (s : Bytes) : Bytes := s.filter fun b => b != 0x0a && b != 0x0d
+
 /-- base64 of the bytes form: RawStdEncoding first, StdEncoding (padded) as the fallback -/
-def decodeB64 (s : Bytes) : Option Bytes :=
+def decodeB64 (s0 : Bytes) : Option Bytes :=
+  let s := stripNL s0
   match unbase64Raw s with
   | some b => some b
   | none =>
